@@ -141,6 +141,19 @@ class C17(PropCheck):
             if "json" in run and "dec" in run:
                 pairs.append((f"(sv_of_pv (enc_results {S.coq_pv(results_inst(run))}))", f"(sv_of_pv {S.coq_pv(run['json'])})"))
                 pairs.append((f"(sv_of_opt (dec_results {S.coq_pv(run['json'])}))", some(results_dec_inst(run))))
+        elif k == "history":
+            # the model's decoders are functions of the JSON alone: any
+            # dependence of the implementation on what was decoded before is a
+            # mismatch
+            for st in run["steps"]:
+                if st["json"] is None:
+                    continue
+                if st["type"] == "layout":
+                    pairs.append((f"(sv_of_opt (dec_layout {S.coq_pv(st['json'])}))", some(st["dec"])))
+                elif st["type"] == "device":
+                    pairs.append((f"(sv_of_opt (dec_dev {S.coq_pv(st['json'])}))", some(st["dec"])))
+                elif st["type"] == "noise":
+                    pairs.append((f"(sv_of_opt (dec_noise {S.coq_pv(st['json'])}))", some(st["dec"])))
         elif k == "alias" and run.get("cls") == "StateRepr" and run.get("built"):
             specs = case["spec"]["specs"][: run["built"]]
             seq = [specs[i] for i in range(len(specs))] + [specs[i] for i in run["decodes"]]
